@@ -290,7 +290,7 @@ def main():
         # views whose extracted text no longer compiles together with its contracts (renamed local used by a hint, new helper ...)
         # are excluded like views outside the supported subset: properties depending on them become undecided, others are unaffected
         for attempt in range(3):
-            rc, out, err, wall = sh('verus %s --no-verify --triggers-mode silent' % gen, timeout=600)
+            rc, out, err, wall = sh('verus %s --no-verify --triggers-mode silent --num-threads 4' % gen, timeout=600)
             bad = {}
             if rc != 0:
                 gl = open(gen).read().split('\n')
